@@ -156,9 +156,13 @@ def check(prop, tier, seed, t0, no_build=False):
     nthm = nok = 0
     names = []
     with core.Lock():
-        ok_tab, msg = core.regenerate_tables()
+        ok_tab, msg, fallbacks = core.regenerate_tables()
         if not ok_tab:
             broken.append("translator: " + msg)
+        if fallbacks:
+            # not a broken obligation: the model keeps the pinned literal and the (escalated) correspondence is the tie
+            ctx.escalate = True
+            ctx.notes.append("literal tables no longer extractable, pinned values used, generators escalated: " + "; ".join(fallbacks))
         if not no_build:
             ok_drv, out = core.lake_build(["driver"])
             if not ok_drv:
